@@ -1,7 +1,9 @@
 (* C06 — Sequential evaluation feeds and records exactly what the environment provides.  Property theorems only.
    req_pred / req_off / req_rwds / should_pred are Generated/C06_gen.v, translated from SequentialCB._required and _results. *)
 From Coq Require Import ZArith List Bool.
-From Coba Require Import Generated.C06_gen C06.Model C06.Proofs.
+From Coba Require Import Generated.C06_gen C06.Model C06.Proofs C06.ModelLoop C06.ProofsLoop.
+From Coq Require Import QArith.
+Close Scope Q_scope.
 Import ListNotations.
 Open Scope Z_scope.
 
@@ -39,6 +41,62 @@ Theorem off_policy_step : forall (Ctx Act Kw LState : Type) predict learn_off (s
      {| r_action := a; r_reward := i_rewards i a; r_prob := p; r_extra := i_extra i |} :: snd (run_off predict learn_off (learn_off st1 (i_ctx i) (i_action i) (i_reward i) (i_prob i)) env)).
 Proof. exact @run_off_step. Qed.
 Print Assumptions off_policy_step.
+
+
+(* ---- every mode.  ModelLoop.step is one iteration of _results for learn in {None,on,off,ips} x eval in {None,on,ips} over an abstract learner with an
+   explicit state; the extracted loop is run against the real evaluator with a scripted learner on every mode (correspondence), so these statements are
+   about the loop the code runs. *)
+Theorem learn_on_teaches_the_learners_own_choice : forall (Ctx Act Kw LState : Type) act_eqb predict learn score em hs ra rp rr (st : LState) (i : @inter Ctx Act) a p (kw : Kw) st1,
+  predict st (x_ctx i) (x_actions i) = ((a, p, kw), st1) ->
+  fst (fst (ModelLoop.step act_eqb predict learn score 1 em hs ra rp rr st i)) = [EP (x_ctx i) (x_actions i); EL (x_ctx i) a (x_rewards i a) p (Some kw)] /\
+  snd (ModelLoop.step act_eqb predict learn score 1 em hs ra rp rr st i) = learn st1 (x_ctx i) a (x_rewards i a) p (Some kw).
+Proof. exact @step_learn_on. Qed.
+Print Assumptions learn_on_teaches_the_learners_own_choice.
+
+Theorem learn_ips_teaches_the_ips_reward : forall (Ctx Act Kw LState : Type) act_eqb predict learn score em hs ra rp rr (st : LState) (i : @inter Ctx Act) a p (kw : Kw) st1,
+  predict st (x_ctx i) (x_actions i) = ((a, p, kw), st1) ->
+  fst (fst (ModelLoop.step act_eqb predict learn score 3 em hs ra rp rr st i)) = [EP (x_ctx i) (x_actions i); EL (x_ctx i) a (ips act_eqb i a) p (Some kw)] /\
+  snd (ModelLoop.step act_eqb predict learn score 3 em hs ra rp rr st i) = learn st1 (x_ctx i) a (ips act_eqb i a) p (Some kw).
+Proof. exact @step_learn_ips. Qed.
+Print Assumptions learn_ips_teaches_the_ips_reward.
+
+Theorem learn_off_teaches_the_logged_triple : forall (Ctx Act Kw LState : Type) act_eqb predict learn score em hs ra rp rr (st : LState) (i : @inter Ctx Act),
+  exists pre st1, fst (fst (ModelLoop.step (Kw:=Kw) act_eqb predict learn score 2 em hs ra rp rr st i)) = pre ++ [EL (x_ctx i) (x_action i) (x_reward i) (x_prob i) None] /\
+                  snd (ModelLoop.step act_eqb predict learn score 2 em hs ra rp rr st i) = learn st1 (x_ctx i) (x_action i) (x_reward i) (x_prob i) None /\
+                  (forall e, In e pre -> match e with EL _ _ _ _ _ => False | _ => True end).
+Proof. exact @step_learn_off. Qed.
+Print Assumptions learn_off_teaches_the_logged_triple.
+
+Theorem learn_none_never_teaches : forall (Ctx Act Kw LState : Type) act_eqb predict learn score em hs ra rp rr (st : LState) (i : @inter Ctx Act) e,
+  In e (fst (fst (ModelLoop.step (Kw:=Kw) act_eqb predict learn score 0 em hs ra rp rr st i))) -> match e with EL _ _ _ _ _ => False | _ => True end.
+Proof. exact @step_no_learn. Qed.
+Print Assumptions learn_none_never_teaches.
+
+Theorem recorded_reward : forall (Ctx Act Kw LState : Type) act_eqb predict learn score lm hs ra rp (st : LState) (i : @inter Ctx Act) a p (kw : Kw) st1,
+  predict st (x_ctx i) (x_actions i) = ((a, p, kw), st1) ->
+  o_reward (snd (fst (ModelLoop.step act_eqb predict learn score lm 1 hs ra rp true st i))) = Some (x_rewards i a) /\
+  (should_pred lm 3 hs ra rp = true -> o_reward (snd (fst (ModelLoop.step act_eqb predict learn score lm 3 hs ra rp true st i))) = Some (ips act_eqb i a)).
+Proof. exact (fun Ctx Act Kw LState act_eqb predict learn score lm hs ra rp st i a p kw st1 E =>
+  conj (row_reward_on act_eqb predict learn score lm hs ra rp st i a p kw st1 E) (row_reward_ips act_eqb predict learn score lm hs ra rp st i a p kw st1 E)). Qed.
+Print Assumptions recorded_reward.
+
+Theorem recorded_reward_by_score : forall (Ctx Act Kw LState : Type) act_eqb predict learn score lm ra rp (st : LState) (i : @inter Ctx Act),
+  should_pred lm 3 true ra rp = false ->
+  o_reward (snd (fst (ModelLoop.step (Kw:=Kw) act_eqb predict learn score lm 3 true ra rp true st i))) = Some (score st (x_ctx i) (x_actions i) (x_action i) * ips act_eqb i (x_action i))%Q.
+Proof. exact @row_reward_ips_score. Qed.
+Print Assumptions recorded_reward_by_score.
+
+Theorem one_row_per_interaction_in_every_mode : forall (Ctx Act Kw LState : Type) act_eqb predict learn score lm em hs ra rp rr (env : list (@inter Ctx Act)) (st : LState),
+  length (snd (ModelLoop.run (Kw:=Kw) act_eqb predict learn score lm em hs ra rp rr st env)) = length env /\
+  map o_extra (snd (ModelLoop.run act_eqb predict learn score lm em hs ra rp rr st env)) = map x_extra env.
+Proof. exact @run_rows. Qed.
+Print Assumptions one_row_per_interaction_in_every_mode.
+
+(* the documented IPS transform *)
+Theorem ips_transform : forall (Ctx Act : Type) (act_eqb : Act -> Act -> bool) (i : @inter Ctx Act) a,
+  ips act_eqb i a = if act_eqb a (x_action i) then (x_reward i / match x_prob i with Some p => if Qeq_bool p 0 then 1 else p | None => 1 end)%Q else 0%Q.
+Proof. exact @ips_spec. Qed.
+Print Assumptions ips_transform.
 
 (* the former _required (without the record flags) accepted a logged-only environment although predict was called: *)
 Example required_without_record_flags_refuted :
